@@ -11,7 +11,7 @@ package obikmer
 //   (3) graph without cycle: the path returned starts at a node without predecessor, every step follows an edge
 //       (Nexts), and its total weight is the maximum over ALL walks starting at a node without predecessor
 //       (memoised exhaustive search over the graph);
-//   (4) a single read without repeated k-mer comes back unchanged from LongestConsensus.
+//   (4) a single read without repeated k-mer comes back unchanged from LongestConsensus, for minimum coverages 0, 0.5, 1.
 // Injected into pkg/obikmer with `go test -overlay`; nothing is written into the repository.
 
 import (
@@ -179,13 +179,16 @@ func TestVerifBoundedDeBruijnPath(t *testing.T) {
 					seen[seqs[0][i:i+k]] = true
 				}
 				if !rep {
-					cons, err := g.LongestConsensus("c", 0)
-					if err != nil || cons.String() != seqs[0] {
-						got := "error"
-						if err == nil {
-							got = cons.String()
+					// ... whatever the minimum coverage asked (all its k-mers have the same weight, the mode)
+					for _, mc := range []float64{0, 0.5, 1.0} {
+						cons, err := g.LongestConsensus("c", mc)
+						if err != nil || cons.String() != seqs[0] {
+							got := "error"
+							if err == nil {
+								got = cons.String()
+							}
+							fail(fmt.Sprintf("k=%d,%s,min_cov=%v:consensus=%s", k, label, mc, got))
 						}
-						fail(fmt.Sprintf("k=%d,%s:consensus=%s", k, label, got))
 					}
 				}
 			}
